@@ -1733,7 +1733,7 @@ class DispVertex:
     y: int
 
     normal: Vec = attrs.field(factory=Vec, validator=attrs.validators.instance_of(Vec))
-    distance: float = 0
+    distance: float = 0.0
     offset: Vec = attrs.field(factory=Vec, validator=attrs.validators.instance_of(Vec))
     offset_norm: Vec = attrs.field(factory=Vec, validator=attrs.validators.instance_of(Vec))
     alpha: float = 0.0
